@@ -44,6 +44,9 @@ def fixed_specs():
     add(route='segy_2d', shape=[300, 33], bits=4, blockshape=[1, 256, -1], fmt=1, detection='strip')
     add(route='numpy', shape=[41, 9, 12], bits=4, blockshape=[4, 4, -1])           # >= 10 parallel range reads
     add(route='numpy', shape=[130, 70, 6], bits=2, blockshape=[64, 64, 4])
+    # one inline group = 43 disk blocks (a contiguous range longer than two blocks per pool worker),
+    # 43 parallel range reads per z-slice
+    add(route='numpy', shape=[5, 170, 20], bits=8, blockshape=[4, 4, -1])
     return S
 
 
@@ -102,6 +105,27 @@ def usable(m):
     if m['is_2d']:
         return m['tracecount'] >= 2 and m['n_s'] >= 2
     return m['n_il'] >= 2 and m['n_xl'] >= 2 and m['n_s'] >= 2 and m['tracecount'] >= 2
+
+
+def make_sibling(data, m):
+    """A different file with the same geometry: the 4 KiB data blocks rotated by one (every block is a
+    whole number of fixed-rate cells, so the result is a valid file that decodes to other samples) and
+    7 added to every non-zero stored header value (zeros stay: they mark the holes of irregular files).
+    Returns None when the file has fewer than two data blocks."""
+    import numpy as np
+    nb = m['data_blocks']
+    if nb < 2:
+        return None
+    d0 = 4096 * m['n_header_blocks']
+    d1 = d0 + 4096 * nb
+    out = bytearray(data)
+    out[d0:d1] = data[d0 + 4096:d1] + data[d0:d0 + 4096]
+    for off in m['offsets'].values():
+        a = np.frombuffer(bytes(out[off:off + m['hdr_len']]), dtype='<i4').copy()
+        nz = a != 0
+        a[nz] = np.where(a[nz] == -7, 1, a[nz] + 7)
+        out[off:off + m['hdr_len']] = a.tobytes()
+    return bytes(out)
 
 
 class Library(list):
